@@ -65,7 +65,7 @@ theorem insertKeyHeap_refines (s : Store) (t : Levels) (key lsn : Nat) (value : 
     have haL := Rep.atLeaf (lpre := []) hrep'
     obtain ⟨s1, e1, v1, n1, _⟩ := fetch_spec s last.off (.leaf last) d haL.1 rfl
     obtain ⟨s2, r, e2, hF⟩ := leafNone (view s) t t' key lsn nf' value s1 (rootOff t)
-      (by rw [v1, n1]; exact hrep) last d hpre hk hv (by rw [n1]; exact hcase) hin hroot
+      (by rw [v1, n1]; exact hrep) last d hpre (last_hasR_of_chain (lpre := []) hI.chain hpre) hk hv (by rw [n1]; exact hcase) hin hroot
     refine ⟨s2, r, ?_, hF⟩
     rw [hroot, bind_ok e1]
     rw [hroot] at e2
